@@ -10,6 +10,7 @@ import itertools
 from fractions import Fraction
 
 from ..sx import terms as T
+from ..sx import loader
 from ..shims import pd_shim
 from ..shims import scipy_shim as SS
 from ..shims.np_shim import SymArray
@@ -269,7 +270,7 @@ def job_wrapper(job, n, cols, cls, frame):
     import pandas as pd
     from bluebonnet.flow import flowproperties as fp
     if "alpha" not in cols and cls == "FlowProperties":
-        csv = pd.read_csv("/repo/tests/data/pvt_gas.csv").rename(columns={"P": "pressure", "Z-Factor": "z-factor", "Cg": "compressibility", "Viscosity": "viscosity"})
+        csv = pd.read_csv(loader.REPO + "/tests/data/pvt_gas.csv").rename(columns={"P": "pressure", "Z-Factor": "z-factor", "Cg": "compressibility", "Viscosity": "viscosity"})
         idx = np.linspace(5, len(csv) - 1, n).astype(int)
         sub = csv.iloc[idx]
         env = {}
